@@ -90,7 +90,9 @@ macro_rules! decrypt_total {
                     i += 1;
                 }
             }
-            kani::cover!(r.is_ok(), "some plaintext is accepted");
+            if $secret_len >= 4 + $nonce_len {
+                kani::cover!(r.is_ok(), "some plaintext is accepted");
+            }
             kani::cover!(matches!(r, Err(StatusCode::BadDecodingError)), "some plaintext is rejected");
             core::mem::forget((r, secret, key));
         }
